@@ -137,7 +137,7 @@ let show_devs (evs : DenM.dev list) : string =
       | DenM.DSoft WordsM.SErr -> "E"
       | DenM.DSoft WordsM.SWarn -> "W") evs)
 
-let run ?(spec = false) () =
+let run ?(spec = false) ?(scope = false) () =
   let hdr = List.map int_of_string (List.filter (fun s -> s <> "") (String.split_on_char ' ' (input_line stdin))) in
   match hdr with
   | [a; b; c; d; ra; rb; rs; fuel; limit] ->
@@ -157,7 +157,13 @@ let run ?(spec = false) () =
            (try
               block_counter := 0;
               let t = tree_of (parse line) in
-              if spec then
+              if scope then
+                (match ScopeM.well_scoped tc t with
+                 | None -> "OK"
+                 | Some ScopeM.SUnbound -> "unbound"
+                 | Some ScopeM.SRebound -> "rebound"
+                 | Some ScopeM.SBadTree -> "badtree")
+              else if spec then
                 (match DenM.den p t fuel t [] [] with
                  | DenM.DFuel -> "FUEL "
                  | DenM.DStuck -> "STUCK "
